@@ -249,10 +249,12 @@ def handleCtrl (d : Defects) (s : St) (st : SType) (sys status : Int) : St × Li
     else (s, [])
   | .linktestRsp | .rejectReq => putIfOpen s sys
 
-/-- the data branch of `_on_connection_message_received` (the decode for the log line is guarded: `decodable` has no effect) -/
-def handleData (s : St) (sys : Int) : St × List Out :=
+/-- the data branch of `_on_connection_message_received` (the decode for the log line is guarded: `decodable` has no effect).
+Only a reply (even function code, F0 included) is looked up in `_response_queues`; a primary (odd function) that happens to carry
+the system bytes of an open local transaction is a new transaction of the peer and goes to the application. -/
+def handleData (s : St) (function sys : Int) : St × List Out :=
   if s.conn ≠ .selected then (s, [reject sys Gen.HsmsSType.DATA_MESSAGE])
-  else if isOpen s sys then (closeSys s sys, [.deliverWaiter sys])
+  else if function % 2 = 0 ∧ isOpen s sys = true then (closeSys s sys, [.deliverWaiter sys])
   else (s, [.deliverApp sys])
 
 /-! ## the step function -/
@@ -268,8 +270,8 @@ def step (d : Defects) (s : St) : In → St × List Out
     if s.conn = .notConnected ∨ s.disconnecting = false then (s, []) else closeSeq s
   | .rxCtrl st sys status =>
     if s.conn = .notConnected then (s, []) else handleCtrl d s st sys status
-  | .rxData _ _ _ sys _ =>
-    if s.conn = .notConnected then (s, []) else handleData s sys
+  | .rxData _ function _ sys _ =>
+    if s.conn = .notConnected then (s, []) else handleData s function sys
   | .apiSelect => if s.conn = .notConnected then (s, []) else sendReq s .select
   | .apiDeselect => if s.conn = .notConnected then (s, []) else sendReq s .deselect
   | .apiLinktest => if s.conn = .notConnected then (s, []) else sendReq s .linktest
